@@ -138,7 +138,8 @@ def _lit(rng, k, depth):
     if k == 'list':
         return [gen_literal(rng, depth + 1)[1] for _ in range(rng.randint(0, 2))]
     if k == 'dict':
-        return {rng.choice(NAMES): gen_literal(rng, depth + 1)[1] for _ in range(rng.randint(0, 2))}
+        ks = sorted({rng.choice(NAMES) for _ in range(rng.randint(0, 2))})  # sorted: reprlib prints dicts sorted
+        return {k: gen_literal(rng, depth + 1)[1] for k in ks}
     raise AssertionError(k)
 
 
@@ -225,6 +226,8 @@ def gen_path(rng, n, root=T, allow_star=True):
             m = min(rng.randint(1, 2), n - len(items))
             sub, _, sub_items = gen_path(rng, m, T, allow_star)
             parts.append(sub); items.extend(sub_items); kinds.append('Path%d' % m)
+    if root is not T and items and items[0][0] == '(':
+        return gen_path(rng, n, root, allow_star)  # S(1, 2): no such expression can be written
     return Path(*parts), tuple(kinds), tuple(items)
 
 
@@ -319,6 +322,14 @@ def concrete_targets():
     ]
 
 
+def err_sig(e):
+    """class + final line (type and message of the original error); the trace in between
+    renders the spec object itself (a Path shows '(len=n)' when truncated, a T does not) and
+    is C05's business"""
+    cls, text = exc_sig(e)
+    return cls, text.splitlines()[-1] if text else ''
+
+
 def eval_signature(x):
     """how x evaluates: trace on the universal target, scope effects, concrete outcomes"""
     sig = []
@@ -327,12 +338,12 @@ def eval_signature(x):
     u = U()
     scope = {n: U((('scope', n),), u._sink) for n in NAMES}
     o = call(G, u if root is T else 'TARGET', x, scope=scope)
-    sig.append(canon(o.value) if o.ok else exc_sig(o.exc))
+    sig.append(canon(o.value) if o.ok else err_sig(o.exc))
     sig.append(tuple(u._sink))
     if root is T:
         for t in concrete_targets():
             o = call(G, t, x)
-            sig.append(('val', norm_text(repr(o.value))) if o.ok else exc_sig(o.exc))
+            sig.append(('val', norm_text(repr(o.value))) if o.ok else err_sig(o.exc))
     return sig
 
 
@@ -505,9 +516,7 @@ def check_concat(col, p, psteps, q, qsteps):
         col.count('split_evaluations')
         if first.ok:
             second = call(G, first.value, q)
-            if whole.ok != second.ok or (whole.ok and canon(whole.value) != canon(second.value)) or \
-                    (whole.ok and not isinstance(whole.value, U) and whole.value is not second.value
-                     and type(whole.value) in (dict, list, Obj)):
+            if whole.ok != second.ok or (whole.ok and canon(whole.value) != canon(second.value)):
                 col.violation('C18/path-split-evaluation-differs',
                               'glom(t, Path(p, q)) = %r but glom(glom(t, p), q) = %r for p=%s q=%s t=%s'
                               % (whole, second, rp, rq, short(t)), wit)
